@@ -215,7 +215,7 @@ pub fn ref_parse_field(s: &str) -> Result<RelField, String> {
 // ------------------------------------------------------------------------------------------
 // generation
 
-pub const NAMES: &[&str] = &["a", "b", "c", "libc6", "python3-dulwich", "g++", "x.y", "0ad", "lib-foo2.0", "z"];
+pub const NAMES: &[&str] = &["a", "b", "c", "libc6", "python3-dulwich", "g++", "x.y", "0ad", "lib-foo2.0", "z", "2048", "7zip", "4g8"];
 pub const ARCHES: &[&str] = &["amd64", "i386", "any", "linux-any", "arm64", "hurd-i386", "all", "native"];
 pub const PROFILES: &[&str] = &["nocheck", "stage1", "cross", "nodoc", "pkg.foo.bar"];
 pub const VERSIONS: &[&str] = &["1", "1.0", "2.0-1", "1.0~rc1", "1:2.0", "0.19.0", "1:1.0~a-1+b1", "2:0", "11~", "4.5.6+dfsg-2", "1:2.0-rc1-3", "3.0-beta-2-1"];
